@@ -166,7 +166,17 @@ def _shape_key(t):
 
 def run(tier, seed):
     rng = random.Random(3000 + seed)
-    terms = gen_terms(tier, rng)
+    return _run(gen_terms(tier, rng), tier, rng, full=True)
+
+
+def replay(path, tier="quick", seed=0):
+    """re-run one recorded violation: the replay file carries the abstract term."""
+    import json
+    t = json.loads(open(path).read())["replay"]["term"]
+    return _run([(t, "replay")], tier, random.Random(3000 + seed), full=False)
+
+
+def _run(terms, tier, rng, full):
     maxn = 4 if tier == "quick" else 5
     viol, cases, meta = [], [], []
     stats = {"terms": 0, "construct_raised": {}, "matrix_undefined": 0, "simplify_raised": {}, "map_wires_raised": {},
@@ -318,20 +328,18 @@ def run(tier, seed):
             samples.append({"term": ot.show(t), "wire_order": [str(w) for w in m["W"]], "built": m["outs"][0][1], "simplified": m["outs"][1][1],
                             "mapped": m["outs"][2][1], "verdicts": "ok"})
     nneg = sum(1 for ti in neg if verdicts[(ti, 0)][0] not in ("ok",))
-    if not neg or nneg != len(neg):
+    if (full and not neg) or nneg != len(neg):
         raise lib.MachineryError(f"negative controls rejected {nneg}/{len(neg)}")
     # comparator negative control
     tmp = []
-    m0 = next(m for m in meta if m is not None and m["matrix"] is not None)
-    badm = m0["matrix"].astype(complex)
+    badm = np.eye(2, dtype=complex)
     badm[0, 0] += 1e-3
-    _cmp(tmp, "neg", "qp.matrix", badm, m0["matrix"], m0["term"])
+    _cmp(tmp, "neg", "qp.matrix", badm, np.eye(2, dtype=complex), G("Identity", [0]))
     if not tmp:
         raise lib.MachineryError("comparator negative control accepted")
-    for k in ("kinds", "depths"):
-        if k == "kinds" and not all(stats["kinds"].get(x, 0) > 0 for x in ("adj", "pow", "root", "ctrl", "prod", "sum", "sprod", "exp", "cob")):
-            raise lib.MachineryError(f"vacuity: some term kind never generated: {stats['kinds']}")
-    if stats["simplify"]["exact"] < 50 or stats["map_wires"]["exact"] < 50 or n_matrix < 100:
+    if full and not all(stats["kinds"].get(x, 0) > 0 for x in ("adj", "pow", "root", "ctrl", "prod", "sum", "sprod", "exp", "cob")):
+        raise lib.MachineryError(f"vacuity: some term kind never generated: {stats['kinds']}")
+    if full and (stats["simplify"]["exact"] < 50 or stats["map_wires"]["exact"] < 50 or n_matrix < 100):
         raise lib.MachineryError(f"vacuity: too few validated outputs {stats}")
     cov = {"states": tstats["distinct"] + rs.distinct, "transitions": tstats["generated"] + rs.generated,
            "oracle_law_instances_model_checked": rs.distinct // 2, "traces_validated_against_impl": n_exact + n_bridge,
